@@ -393,6 +393,27 @@ fn sets_tracker_flag(vocab: &Vocab, t: &GTree, defaults: &mut Vec<usize>) -> boo
     found
 }
 
+/// Some element declares a prefix twice, or a prefix declared above is bound to ANOTHER namespace
+/// further down the path (`noRebind` of Lemmas/ScopeIdem.lean, negated).
+fn has_rebinding(t: &GTree, above: &mut Vec<(usize, usize)>) -> bool {
+    let n0 = above.len();
+    let mut found = false;
+    if matches!(t.v, GValue::Element(_)) {
+        let d = decls_of(t);
+        for (i, (p, n)) in d.iter().enumerate() {
+            if d[..i].iter().any(|(q, _)| q == p) || above.iter().any(|(q, m)| q == p && m != n) {
+                found = true;
+            }
+        }
+        above.extend(d);
+    }
+    if !found {
+        found = t.kids.iter().any(|k| has_rebinding(k, above));
+    }
+    above.truncate(n0);
+    found
+}
+
 /// Declarations of every non-namespace node in raw document order (`declsOf` of the Lean side).
 fn decls_per_node(t: &GTree, out: &mut Vec<Vec<(usize, usize)>>) {
     out.push(decls_of(t));
@@ -519,7 +540,7 @@ pub fn check_dedup(sink: &mut Sink, xot: &mut Xot, vocab: &mut Vocab, t: &GTree,
     }
     // a second call removes nothing
     let idem_guards = match subtree_at(t, path) {
-        Some(sub) => !has_shadowing(sub, &mut vec![]) && !sets_tracker_flag(vocab, sub, &mut vec![]),
+        Some(sub) => !has_rebinding(sub, &mut vec![]) && !sets_tracker_flag(vocab, sub, &mut vec![]),
         None => false,
     };
     if idem_guards {
@@ -531,9 +552,10 @@ pub fn check_dedup(sink: &mut Sink, xot: &mut Xot, vocab: &mut Vocab, t: &GTree,
     if crate::common::guarded(|| xot.deduplicate_namespaces(node)).is_some() {
         let again = read_tree(xot, vocab, root);
         if &again != after && idem_guards {
-            // C15_idem_partial (Lean): impossible when no prefix is declared twice on a path and no
-            // attribute is in a default namespace of its element or above (both inside the subtree)
-            fail(sink, "C15", "C15:second-call-removes-more-under-the-idempotence-guards", "a second deduplicate_namespaces call removes further declarations although the subtree has no shadowing and sets no tracker flag", t, path, "dedup");
+            // C15_idem_partial (Lean): impossible when no prefix is re-bound to another namespace on a
+            // path and no attribute is in a default namespace of its element or above (both inside the
+            // subtree)
+            fail(sink, "C15", "C15:second-call-removes-more-under-the-idempotence-guards", "a second deduplicate_namespaces call removes further declarations although the subtree re-binds no prefix and sets no tracker flag", t, path, "dedup");
         } else if &again != after {
             let (_, mut second) = crate::scope_dedup_class::classify(vocab, t, after, Some(&again), path);
             if second.is_empty() {
